@@ -172,6 +172,7 @@ class Env:
         self.watch_new = watch_new
         self.sim = None
         self.last_raw = {}               # task id -> raw result object of its last parse (for scramble)
+        self.last_mod = {}               # task id -> module of its last parse (for postprocess)
 
     def count(self, k, n=1):
         self.counters[k] = self.counters.get(k, 0) + n
@@ -280,6 +281,7 @@ def run_op(env, ctx, op, path=()):
             raise mon.StepBudget()
         if task is not None:
             env.last_raw[task.i] = raw
+            env.last_mod[task.i] = h.module
         r = {'path': list(path), 'out': out, 'fired': fr.fired,
              'steps': (task.local - start) if task is not None else 0, 'nested': fr.nested}
         if fr.rec is not None and env.on_call_end is not None:
@@ -293,6 +295,21 @@ def run_op(env, ctx, op, path=()):
         if n:
             env.count('scramble')
         return {'path': list(path), 'out': {'scrambled': n}, 'fired': [], 'steps': 0, 'nested': []}
+    if kind == 'postprocess':
+        # the caller works on the result it was handed with the module's own public tools
+        # (transform with a node-swapping callback, visit, traverse, ==, hash, _replace)
+        raw = env.last_raw.get(task.i if task is not None else None)
+        mod = env.last_mod.get(task.i if task is not None else None)
+        n = 0
+        if raw is not None and mod is not None:
+            try:
+                n = postprocess(mod, raw)
+            except mon.StepBudget:
+                raise
+            except Exception:
+                n = -1
+            env.count('postprocess')
+        return {'path': list(path), 'out': {'postprocessed': n}, 'fired': [], 'steps': 0, 'nested': []}
     if kind == 'gc':
         sim = env.sim
         cur = None
@@ -351,6 +368,33 @@ def _run_compile(env, ctx, op, path):
             env.sim.hot |= mon.hot_lines(c, vars(m))
     return {'path': list(path), 'out': out, 'fired': [], 'nested': [],
             'steps': (task.local - start) if task is not None else 0}
+
+
+def postprocess(mod, raw):
+    PO = getattr(mod, 'ParsedObject', None)
+    if PO is None:
+        return 0
+    count = [0]
+
+    def swap(node):
+        # swap nodes that carry position info for fresh objects that have no metadata of their own
+        if isinstance(node, PO) and node._fields and type(node).__name__ not in ('Infix', 'Prefix', 'Postfix'):
+            count[0] += 1
+            return mod.Infix(getattr(node, node._fields[0], None), '~', None)
+        return node
+    out = mod.transform(raw, swap)
+    for node in mod.visit(raw):
+        try:
+            hash(node)
+            node == node
+            node._replace()
+        except Exception:
+            pass
+    for _ in mod.traverse(raw):
+        pass
+    for node in mod.visit(out):
+        repr(node)
+    return count[0]
 
 
 def scramble(v):
